@@ -70,7 +70,9 @@ CHECKS = {
     },
     "C19": {
         "text": "Decides that the stored form of a record is never larger than the size the database reserved: the compressed form is returned only on the edge "
-                "stored_buffer.len() < data.len() for the very buffer returned; and that the size test, rollover decision and space check use one estimate with all summands.",
+                "stored_buffer.len() < data.len() for the very buffer returned; and that the size test, rollover decision and space check use one estimate with all summands, compared with segment_size at exact boundaries "
+                "(rollover with no slack, reject at the empty segment's start offset, the segment writer's SegmentFull test equal to the offset it advances to). "
+                "Does not decide that the estimate equals the encoded size.",
         "note": NOTE,
         "technique": "static analysis: guarded-return dominance with buffer identity, shared-subterm check on MIR",
     },
